@@ -28,6 +28,11 @@ class Ctx:
         self.keep = bool(os.environ.get('VERIF_KEEP'))
         atexit.register(self.cleanup)
         self.t0 = time.time()
+        # temporary files of the tools (cbmc writes multi-GB CNF files for the external SAT solver) live in the scratch directory too
+        global TOOL_TMP
+        TOOL_TMP = os.path.join(self.scratch, 'tmp')
+        os.makedirs(TOOL_TMP, exist_ok=True)
+        install_signal_cleanup()
 
     def cleanup(self):
         if not self.keep:
@@ -52,18 +57,64 @@ def inc_flags(front=(), incs=INC_C):
     return fl
 
 
+TOOL_TMP = None
+LIVE = set()          # process groups of running tools
+STOPPING = False
+_SIG_DONE = False
+
+
+def kill_live():
+    import signal
+    for pg in list(LIVE):
+        try:
+            os.killpg(pg, signal.SIGKILL)
+        except Exception:
+            pass
+
+
+def install_signal_cleanup():
+    """A check stopped from outside (SIGTERM / SIGINT, e.g. a time limit) must not leave cbmc / kissat running or scratch files behind:
+    the tools run in their own process groups, so they are killed explicitly; atexit handlers (scratch removal) then run through sys.exit."""
+    global _SIG_DONE
+    if _SIG_DONE:
+        return
+    _SIG_DONE = True
+    import signal, threading
+    if threading.current_thread() is not threading.main_thread():
+        return
+
+    def handler(signum, frame):
+        global STOPPING
+        STOPPING = True           # queued jobs must not start new tools
+        kill_live()
+        sys.stderr.write('run_check: stopped by signal %d\n' % signum)
+        sys.exit(2)
+    for sg in (signal.SIGTERM, signal.SIGINT, signal.SIGHUP):
+        try:
+            signal.signal(sg, handler)
+        except Exception:
+            pass
+    atexit.register(kill_live)
+
+
 def run(cmd, timeout=None, cwd=None, env=None, mem_gb=None, stdin=None):
     """Run cmd; returns (rc, stdout, stderr, wall_s, maxrss_kb). rc None on timeout."""
+    if STOPPING:
+        raise RuntimeError('check is being stopped')
     t0 = time.time()
     pre = []
     if mem_gb:
         pre = ['/bin/sh', '-c', 'ulimit -v %d; exec "$@"' % int(mem_gb * 1024 * 1024), 'sh']
-    tf = tempfile.NamedTemporaryFile(prefix='rss', delete=False)
+    tf = tempfile.NamedTemporaryFile(prefix='rss', delete=False, dir=TOOL_TMP)
     tf.close()
+    if TOOL_TMP:
+        env = dict(env if env is not None else os.environ)
+        env['TMPDIR'] = TOOL_TMP
     full = ['/usr/bin/time', '-f', '%M', '-o', tf.name] + pre + list(cmd)
     import signal
     pr = subprocess.Popen(full, stdout=subprocess.PIPE, stderr=subprocess.PIPE, stdin=subprocess.PIPE if stdin is not None else None, cwd=cwd, env=env,
                           text=True, errors='replace', start_new_session=True)
+    LIVE.add(pr.pid)
     try:
         out, err = pr.communicate(input=stdin, timeout=timeout)
         rc = pr.returncode
@@ -83,7 +134,11 @@ def run(cmd, timeout=None, cwd=None, env=None, mem_gb=None, stdin=None):
         rss = int(txt[-1]) if txt else 0
     except Exception:
         pass
-    os.unlink(tf.name)
+    LIVE.discard(pr.pid)
+    try:
+        os.unlink(tf.name)
+    except Exception:
+        pass
     return rc, out, err, time.time() - t0, rss
 
 
